@@ -465,6 +465,23 @@ func checkErrValueCut(ec *errCall, v ssa.Value, cut func(*ssa.If) int) errVerdic
 			}
 		}
 		walk(start.Block(), instrIndex(start)+1)
+		if bad == nil {
+			// the same call executed again (a loop) before this error was looked at: the earlier error is overwritten
+			if g := existsPath(start.Block(), instrIndex(start)+1, func(x ssa.Instruction) bool { return x == start }, func(x ssa.Instruction) bool {
+				if ifi, ok := x.(*ssa.If); ok {
+					if _, isC := isCheckOf(ifi.Cond); isC {
+						return true
+					}
+					if cut != nil && cut(ifi) >= 0 {
+						return true // sanctioned continuation (verified separately)
+					}
+				}
+				_, isRet := x.(*ssa.Return)
+				return isRet
+			}); g != nil && inCycle(start.Block()) {
+				return errVerdict{ok: false, at: start.Pos(), how: fmt.Sprintf("the error of %s is overwritten by the next iteration before it is checked: only the last element's error is reported", calleeName(ec.call))}
+			}
+		}
 		if bad != nil {
 			return errVerdict{ok: false, at: bad.Pos(), how: fmt.Sprintf("a success return (error result nil) is reachable while the error of %s may be non-nil", calleeName(ec.call))}
 		}
